@@ -190,6 +190,18 @@ impl Exec {
                 let b = construct(op["kind"].as_str().unwrap(), Ctor::FromSeed(&seed));
                 self.built(g, b, &mut out);
             }
+            "default_ctor" => {
+                // `Default::default()` of a kind, if it has it (a constructor like any other); with serde the state image
+                let g = get_u64(op, "g");
+                let b = construct(op["kind"].as_str().unwrap(), Ctor::Default);
+                self.built(g, b, &mut out);
+                #[cfg(feature = "serde1")]
+                if let Some(img) = self.gens.get(&g).and_then(|x| x.ser_bincode()) {
+                    if out.iter().any(|(k, _)| k == "ok") {
+                        out.push(("image".into(), bytesj(&img)));
+                    }
+                }
+            }
             "seed_from_u64" => {
                 let g = get_u64(op, "g");
                 let x = limbs_to_u64(&op["x"]);
@@ -518,6 +530,12 @@ impl Exec {
                 }
                 if let Some(j) = &j {
                     out.push(("json_len".into(), json!(j.len())));
+                    if op.get("want_json").and_then(|v| v.as_bool()).unwrap_or(false) {
+                        out.push(("json".into(), json!(j)));
+                    }
+                }
+                if let Some(ok) = inst.json_value_roundtrip() {
+                    out.push(("json_value_ok".into(), json!(ok)));
                 }
                 self.snaps.insert(g, (b, j, inst.kind().to_string()));
             }
@@ -557,8 +575,14 @@ impl Exec {
             "de_image" => {
                 // deserialize literal image bytes given in the schedule
                 let to = get_u64(op, "to");
-                let img = json_bytes(&op["image"]);
-                let built = construct(op["kind"].as_str().unwrap(), Ctor::DeBincode(&img));
+                let built = match op.get("json").and_then(|v| v.as_str()) {
+                    // a literal JSON text instead of bincode bytes
+                    Some(text) => construct(op["kind"].as_str().unwrap(), Ctor::DeJson(text)),
+                    None => {
+                        let img = json_bytes(&op["image"]);
+                        construct(op["kind"].as_str().unwrap(), Ctor::DeBincode(&img))
+                    }
+                };
                 self.built(to, built, &mut out);
             }
             "debug" => {
@@ -877,6 +901,35 @@ impl Exec {
                 let f = found.into_inner().unwrap();
                 out.push(("searched".into(), json!(n)));
                 out.push(("pairs".into(), Value::Array(f.iter().map(|&(a, b)| json!([a, b])).collect())));
+            }
+            "by_value_copy" => {
+                // C16: a JitterRng over a plain `fn` timer (a Copy type).  If the generator itself is Copy (found out at
+                // compile time), a by-value duplicate is a clone that nobody wrote: it is made while the original owes
+                // the high half of a value, and the readings its first next_u32 takes are recorded.
+                use rand_core::RngCore;
+                static TICKS: std::sync::atomic::AtomicU64 = std::sync::atomic::AtomicU64::new(0);
+                fn tick() -> u64 {
+                    let n = TICKS.fetch_add(1, Ordering::SeqCst);
+                    (1 << 40) + n * 977 + (n * n % 89) * 31 + (n % 7) * 5
+                }
+                let mut a = rand_jitter::JitterRng::new_with_timer(tick as fn() -> u64);
+                a.set_rounds(1);
+                let first = a.next_u32();
+                out.push(("first".into(), u32j(first)));
+                match (&CopyProbe(&a)).maybe_copy() {
+                    None => out.push(("possible".into(), json!(false))),
+                    Some(mut b) => {
+                        out.push(("possible".into(), json!(true)));
+                        let t0 = TICKS.load(Ordering::SeqCst);
+                        let vb = b.next_u32();
+                        out.push(("dup_reads".into(), json!(TICKS.load(Ordering::SeqCst) - t0)));
+                        out.push(("dup_ret".into(), u32j(vb)));
+                        let t1 = TICKS.load(Ordering::SeqCst);
+                        let va = a.next_u32();
+                        out.push(("orig_reads".into(), json!(TICKS.load(Ordering::SeqCst) - t1)));
+                        out.push(("orig_ret".into(), u32j(va)));
+                    }
+                }
             }
             "jit_std_new" => {
                 // JitterRng::new() with the platform timer: only "did it panic" and
